@@ -1205,26 +1205,17 @@ error:
  **********************************************************************/
 
 /*
- * parse_and_descend: parse the expression and descend down the tree
- *   @parser:  address of caller-allocated parser state structure
+ * descend: descend down the tree following an already parsed expression
+ *   @parser:  parser state filled in by parse
  *   @rootptr: address of property data root
  *   @set:     force the tree to conform to the indicated expression
- *   @format:  printf-like format string forming the property expression
- *   @ap       variable argument pointer
  */
-static vnaproperty_t **parse_and_descend(parser_t *parser,
-	vnaproperty_t **rootptr, bool set, const char *format, va_list ap)
+static vnaproperty_t **descend(parser_t *parser,
+	vnaproperty_t **rootptr, bool set)
 {
     vnaproperty_t **anchor = rootptr;
     vnaproperty_t *node = *anchor;
     vnaproperty_t *collection = NULL;
-
-    /*
-     * Parse the expression.
-     */
-    if (parse(parser, format, ap) == -1) {
-	return NULL;
-    }
 
     /*
      * Following the expression list, walk down the tree.
@@ -1365,6 +1356,23 @@ static vnaproperty_t **parse_and_descend(parser_t *parser,
 error:
     parser_free(parser);
     return NULL;
+}
+
+/*
+ * parse_and_descend: parse the expression and descend down the tree
+ *   @parser:  address of caller-allocated parser state structure
+ *   @rootptr: address of property data root
+ *   @set:     force the tree to conform to the indicated expression
+ *   @format:  printf-like format string forming the property expression
+ *   @ap       variable argument pointer
+ */
+static vnaproperty_t **parse_and_descend(parser_t *parser,
+	vnaproperty_t **rootptr, bool set, const char *format, va_list ap)
+{
+    if (parse(parser, format, ap) == -1) {
+	return NULL;
+    }
+    return descend(parser, rootptr, set);
 }
 
 /*
@@ -1595,13 +1603,13 @@ int vnaproperty_vset(vnaproperty_t **rootptr, const char *format, va_list ap)
     vnaproperty_t *value = NULL;
     int rv = -1;
 
-    if ((anchor = parse_and_descend(&parser, rootptr, /*set*/true,
-		    format, ap)) == NULL) {
+    if (parse(&parser, format, ap) == -1) {
 	return -1;
     }
 
     /*
-     * Make sure we're not trying to assign to a map or list.
+     * Make sure we're not trying to assign to a map or list.  Validate
+     * the whole request before descend starts modifying the tree.
      */
     switch (parser.prs_tail->ex_type) {
     case E_MAP_ELEMENT:
@@ -1625,18 +1633,22 @@ int vnaproperty_vset(vnaproperty_t **rootptr, const char *format, va_list ap)
      */
     switch (scanner->scn_token) {
     case T_ASSIGN:
-	value = scalar_alloc(scanner->scn_position);
-	if (value == NULL) {
-	    goto out;
-	}
-	break;
-
     case T_HASH:
 	break;
 
     default:
 	errno = EINVAL;
 	goto out;
+    }
+    if (scanner->scn_token == T_ASSIGN) {
+	value = scalar_alloc(scanner->scn_position);
+	if (value == NULL) {
+	    goto out;
+	}
+    }
+    if ((anchor = descend(&parser, rootptr, /*set*/true)) == NULL) {
+	vnaproperty_free(value);
+	return -1;
     }
 
     /*
@@ -1754,18 +1766,21 @@ vnaproperty_t **vnaproperty_vset_subtree(vnaproperty_t **rootptr,
     scanner_t *scanner = &parser.prs_scn;
     vnaproperty_t **anchor;
 
-    if ((anchor = parse_and_descend(&parser, rootptr,
-		    /*set*/true, format, ap)) == NULL) {
+    if (parse(&parser, format, ap) == -1) {
 	return NULL;
     }
 
     /*
-     * Make sure there are no unexpected trailing tokens.
+     * Make sure there are no unexpected trailing tokens before
+     * modifying the tree.
      */
     if (scanner->scn_token != T_EOF) {
 	errno = EINVAL;
 	anchor = NULL;
 	goto out;
+    }
+    if ((anchor = descend(&parser, rootptr, /*set*/true)) == NULL) {
+	return NULL;
     }
 
 out:
